@@ -26,6 +26,7 @@
 import Gts.Lemmas.GbReadWrite
 import Gts.Lemmas.GbFixed
 import Gts.Lemmas.GbLearn
+import Gts.Lemmas.GbSecond
 import Gts.Lemmas.GbEdit
 import Gts.Lemmas.GbLocRT
 import Gts.Lemmas.GbProps
@@ -529,13 +530,42 @@ example : Writable Registry.default wrwWitness (List.replicate 12 97) = true ∧
     wrwWitness.fields.region ≠ none ∧ tableFaithful Registry.default wrwWitness.table = false := by
   refine ⟨by decide +kernel, by decide +kernel, by decide +kernel, by decide, by decide +kernel⟩
 
-/-- **The re-read record is a fixed point of reading, too** (second generation).  `readBack` is
-idempotent: the record that was read back, written and read again under the grown registry, is
-itself (guard `namesDistinct` as above). -/
-theorem read_back_idempotent_partial (reg reg' : Registry) (hs : sameText reg reg') (r : Record) (p : Bytes)
-    (namesDistinct : tableDistinct r.table = true) :
+/-- **`readBack` is idempotent on its image**, for every record and without any guard: what the
+reader builds is what `Props.Add` builds (rows `name :: value :: …`, names pairwise distinct), its
+toggle values are already empty and its accession already carries the REGION suffix. -/
+theorem read_back_idempotent (reg reg' : Registry) (hs : sameText reg reg') (r : Record) (p : Bytes) :
     readBack reg' (readBack reg r p) p = readBack reg r p :=
-  readBack_idem reg reg' hs r p namesDistinct
+  readBack_idem' reg reg' hs r p
+
+/-- … and the table of a record that was read always has distinct row names: from the second
+generation on the guard `namesDistinct` of `write_read_write_partial` holds by itself. -/
+theorem read_back_names_distinct (reg : Registry) (r : Record) (p : Bytes) :
+    tableDistinct (readBack reg r p).table = true :=
+  tableDistinct_readFeature reg r.table
+
+example : readBack Registry.default dupNamesWitness [] ≠ ⟨dupNamesWitness.fields, dupNamesWitness.table, .buffer []⟩ := by
+  intro h
+  have := congrArg (fun r => r.table.map fun f => f.props.length) h
+  revert this; decide +kernel
+
+/-- **Second generation: the record that was READ is a fixed point of write → read**, for every
+`Writable` record — no guard: neither on row names (the duplicate-name shape of
+`write_read_write_full_refuted` is gone after one reading) nor on K1A (the region is already inside
+the accession).  `GenBank.String` of `readBack reg r p` under the registry `reg'` the reader ended
+with succeeds with some text `t1`; `GenBankParser` under `reg'` reads from `t1` (followed by
+anything) the record `readBack reg r p` itself and leaves the registry `reg'`.  With
+`namesDistinct`, `t1` is the first output (`write_read_write_partial`). -/
+theorem reread_fixed_point (reg : Registry) (r : Record) (p : Bytes) (hw : Writable reg r p = true)
+    (hloc : ∀ x ∈ r.table, LocRT x.loc) (rest' : Bytes) :
+    ∃ t1, write (learnTable reg r.table) (readBack reg r p) = .ok t1 ∧
+      genbankParser (learnTable reg r.table) ⟨t1 ++ rest', []⟩ =
+        (.ok (readBack reg r p, learnTable reg r.table), ⟨rest', []⟩) :=
+  reread_fixed reg r p hw hloc rest'
+
+/-- non-vacuity: the duplicate-name witness meets the hypotheses (and not the guard `namesDistinct`) -/
+example : Writable Registry.default dupNamesWitness [] = true ∧
+    (dupNamesWitness.table.all fun f => Loc.canonP f.loc) = true ∧ tableDistinct dupNamesWitness.table = false :=
+  ⟨write_read_write_full_refuted.1, write_read_write_full_refuted.2.1, write_read_write_full_refuted.2.2.2⟩
 
 /-- **read (write r) under a registry that has learned names.**  The text `GenBank.String` wrote
 under `reg`, read by `GenBankParser` under any `reg'` that writes the same text as `reg`: the same
@@ -590,6 +620,15 @@ theorem read_stream_learning_from (reg reg' : Registry) (hs : sameText reg reg')
       readAll reg' t = some (rs.map (fun x => readBack reg x.1 x.2), learnStream reg' (rs.map (·.1)), true) :=
   GenBank.read_stream_learning reg reg' hs rs hall
 
+/-- **Byte fixed point of a stream** (guard `namesDistinct` for every record): the records that
+were read from a stream, written again with `WriteSeq` under any registry that writes the same text
+as the first writer's — the registry the reader ended with is one — reproduce the stream byte for
+byte. -/
+theorem write_stream_fixed_partial (reg reg' : Registry) (hs : sameText reg reg') (rs : List (Record × Bytes))
+    (hall : ∀ x ∈ rs, x.1.origin = .residues x.2 ∧ x.2.length < 10 ^ 9 ∧ tableDistinct x.1.table = true) :
+    writeAll reg' (rs.map fun x => readBack reg x.1 x.2) = writeAll reg (rs.map (·.1)) :=
+  writeAll_readBack reg reg' hs rs hall
+
 /-- non-vacuity: a stream of two records; the first teaches `my_tag` (unknown under the initial
 registry, learned as quoted), the second uses it again and is read under the larger registry -/
 def streamWitness : List (Record × Bytes) :=
@@ -599,8 +638,9 @@ def streamWitness : List (Record × Bytes) :=
 
 example : (∀ x ∈ streamWitness, x.1.origin = .residues x.2 ∧ Writable Registry.default x.1 x.2 = true ∧
       (∀ f ∈ x.1.table, LocRT f.loc)) ∧
-    learnStream Registry.default (streamWitness.map (·.1)) ≠ Registry.default := by
-  constructor
+    learnStream Registry.default (streamWitness.map (·.1)) ≠ Registry.default ∧
+    (∀ x ∈ streamWitness, x.2.length < 10 ^ 9 ∧ tableDistinct x.1.table = true) := by
+  refine ⟨?_, ?_, by decide +kernel⟩
   · intro x hx
     have hc : ∀ y ∈ streamWitness, (y.1.table.all fun f => Loc.canonP f.loc) = true := by decide +kernel
     have hw : ∀ y ∈ streamWitness, y.1.origin = .residues y.2 ∧ Writable Registry.default y.1 y.2 = true := by
@@ -695,10 +735,9 @@ def editHost : Seq :=
 def editGuest : Seq := ⟨[⟨"gene", .compl (.ranged 0 3 false false), [["gene", "x"]]⟩], bs "ttt"⟩
 
 example : Writable Registry.default (ofSeq locusWitness editHost) editHost.bytes = true ∧
-    Writable Registry.default (ofSeq Fields.empty editGuest) editGuest.bytes = false ∧
     Writable Registry.default (ofSeq sampleRecord.fields editGuest) editGuest.bytes = true ∧
     editHost.reverse.bytes ≠ editHost.bytes ∧ 0 < (editHost.delete 2 5).bytes.length ∧
     editHost.bytes.length + editGuest.bytes.length < 10 ^ 9 := by
-  refine ⟨by decide +kernel, by decide +kernel, by decide +kernel, by decide +kernel, by decide +kernel, by decide +kernel⟩
+  refine ⟨by decide +kernel, by decide +kernel, by decide +kernel, by decide +kernel, by decide +kernel⟩
 
 end Gts.C01
